@@ -302,4 +302,4 @@ EXTRA_LEAN_TARGETS = EXTRA_LEAN_TARGETS + [NESTED_TARGET]
 NESTED_THEOREMS = NESTED_THEOREMS + ["OdxVerif.Codec." + t for t in [
     "C08_static_length_nested3_partial", "C08_compu_leaf_static_length", "C08_dtc_no_static_length", "C08_required_iff_not_omittable3",
     "C08_conv_leaf_required", "C08_required_nested3", "C08_not_required_nested3", "static_length_nested3", "StaticP3.sound",
-    "PDesc.ofConv_static", "DescribedP3.fill_none"]]
+    "PDesc.ofConv_static", "DescribedP3.fill_none", "CompuShape.static", "tDesc_static"]]
